@@ -1140,13 +1140,26 @@ impl<'m, 'a> Driver<'m, 'a> {
         let rd: Vec<DataType> = r.iter().map(|t| vt_dt(*t).unwrap()).collect();
         let m = &mut *self.m;
         let iid = e.imports_id.unwrap();
+        // half of the time the ImportsID is looked up by name, as a caller would (ModuleImports::find)
+        let by_name: Option<(String, String)> = if rng.bool() {
+            e.ident.strip_prefix("I:").and_then(|s| s.split_once('.')).map(|(a, b)| (a.to_string(), b.to_string()))
+        } else {
+            None
+        };
+        if by_name.is_some() {
+            self.model.log.push("  (ImportsID obtained through imports.find)".to_string());
+        }
         let res = catch(move || {
             let mut fb = FunctionBuilder::new(&pd, &rd);
             for o in ops {
                 use wirm::opcode::Inject;
                 fb.inject(o);
             }
-            fb.replace_import_in_module(m, ImportsID(iid));
+            let target = match by_name {
+                Some((module, name)) => m.imports.find(module, name).expect("imports.find finds a live import by its names"),
+                None => ImportsID(iid),
+            };
+            fb.replace_import_in_module(m, target);
         });
         let sig = self.model.flat.get(&format!("import[{}]", &e.ident[2..])).cloned().unwrap_or_default();
         let sig = sig.strip_prefix("func ").unwrap_or(&sig).to_string();
